@@ -1,7 +1,64 @@
-(* C11: placeholder until the protocol invariants are proved; a concrete exploration. *)
-From BCL Require Import Model.Proto.
+(* C11: ParseFile terminates, closes its input exactly once, leaks nothing.
+
+   Model: Model/Proto.v -- the four processes of ParseFile (reader, lexer, parser, caller), their
+   channels (unbuffered inpc/rerr/perr, the 10-slot token channel, done), the deferred Close and
+   the early-exit path, as a transition system.  `reachable s` = s is reached from an initial state
+   for SOME read script (any sizes, zero-byte reads, EOF with or without data, an error at any step),
+   SOME lexer/parser oracle (tokens per chunk, lexical failure anywhere, syntax errors, diagnostics)
+   by SOME schedule.  Every theorem holds for all of them.  Timing and the Go scheduler itself are
+   outside the model (partial, see DESIGN.md 6 C11). *)
+From Coq Require Import Lia.
+From BCL Require Import Model.Proto Proofs.ProtoProofs.
+
+Theorem C11_no_deadlock : forall s, reachable s -> final s = false -> exists ch, do s ch <> None.
+Proof. exact ProtoProofs.C11_no_deadlock. Qed.
+Print Assumptions C11_no_deadlock.
+
+(* every step decreases a measure: no schedule performs more than mu_ (init ...) effective steps *)
+Theorem C11_terminates : forall sc plan fin syn nd sched,
+  effective (init sc plan fin syn nd) sched <= mu_ (init sc plan fin syn nd).
+Proof. exact ProtoProofs.C11_terminates. Qed.
+Print Assumptions C11_terminates.
+
+(* ... and every schedule that keeps offering every choice reaches the final state within that many rounds *)
+Theorem C11_fair_terminates : forall n sched s,
+  reachable s -> rounds n sched -> mu_ s <= n -> final (exec s sched) = true.
+Proof. exact ProtoProofs.C11_fair_terminates. Qed.
+Print Assumptions C11_fair_terminates.
+
+Theorem C11_close_once : forall s, reachable s -> closes s <= 1.
+Proof. exact ProtoProofs.C11_close_once. Qed.
+Print Assumptions C11_close_once.
+
+Theorem C11_close_exactly_once : forall s, reachable s -> final s = true -> closes s = 1.
+Proof. exact ProtoProofs.C11_close_final. Qed.
+Print Assumptions C11_close_exactly_once.
+
+Theorem C11_no_read_after_close : forall s, reachable s -> closes s = 1 -> r s = R_done.
+Proof. exact ProtoProofs.C11_read_never_after_close. Qed.
+Print Assumptions C11_no_read_after_close.
+
+(* the returned error: the read error if the reader met one, else the parse error -- the same for every schedule *)
+Theorem C11_result : forall sc plan fin syn nd sched,
+  let s := exec (init sc plan fin syn nd) sched in
+  final s = true ->
+  result s = Some (expected sc plan syn) /\ reads s = expected_reads sc plan /\ closes s = 1.
+Proof. exact ProtoProofs.C11_result. Qed.
+Print Assumptions C11_result.
+
+Theorem C11_stops_reading : forall s, reachable s -> reads_after_fail s <= 1.
+Proof. exact ProtoProofs.C11_stops_reading. Qed.
+Print Assumptions C11_stops_reading.
+
+(* when the caller has returned, lexer and parser are finished and the reader has only its
+   non-blocking closing steps left *)
+Theorem C11_no_leftover : forall s, reachable s -> returned s = true ->
+  (r s = R_closeinpc \/ r s = R_closefile \/ r s = R_done) /\ l s = L_done /\ p s = P_done.
+Proof. exact ProtoProofs.C11_no_leftover. Qed.
+Print Assumptions C11_no_leftover.
+
+(* non-vacuity: a zero-byte first read, then data; and an early lexical failure with input left over *)
 Example C11_example :
-  Proto.predict [RdZero; RdData; RdData] [(0, false); (3, false); (12, false)] 1 false 0
-  = (Some ENone, 1, 4, 0, true).
-Proof. vm_compute. reflexivity. Qed.
-Print Assumptions C11_example.
+  Proto.predict [RdZero; RdData; RdData] [(0, false); (3, false); (12, false)] 1 false 0 = (Some ENone, 1, 4, 0, true)
+  /\ Proto.predict [RdData; RdData; RdData; RdErr] [(2, true)] 0 false 1 = (Some EParse, 1, 2, 0, true).
+Proof. vm_compute. split; reflexivity. Qed.
